@@ -132,6 +132,13 @@ def run(tier, seed):
             info[cfg]["float_carrier_degrees"] = 721 - nb
         except Broken as e:
             V.broke("%s: %s" % (cfg, e))
+    # the long long / unsigned long long spellings of the 64-bit operand are distinct types on LP64: same programs as int64_t / uint64_t
+    from . import spell
+    for cfg_ in (configs[:1] if tier == "quick" else configs):
+        try:
+            spell.check(V, cfg_, "angle", "angle helpers")
+        except Broken as e:
+            V.broke("spellings %s: %s" % (cfg_, e))
     expl = ("DECIDED: angle_to_radians<T> for the 8 integral carriers: on the box 0 <= d <= 360 (d the mathematical operand value) the returned "
             "form q satisfies -179 <= 180*q - phi.v*d <= 0, i.e. q == floor(d*phi.v/180); every other value of the type returns NaN; with "
             "|phi.v - 65536*pi| bounded by the interval oracle this is within 1 + 2*|phi.v - 65536*pi| < 2 ulp of d*pi/180. "
@@ -145,6 +152,7 @@ def run(tier, seed):
             "statement does not hold - the 721 degree values are decided one by one, float carrier against fixed_t carrier, by constant "
             "propagation; so the float carrier agrees with the fixed_t and integral carriers (sin_angle(double) does not compile: not an input the functions are defined on). "
             "Every clause of C20 is decided.")
+    expl = expl + ' The `long long` / `unsigned long long` spellings of a 64-bit integral operand (distinct types on LP64) are compared with the int64_t / uint64_t wrappers by summary equivalence; spellings the library does not compile for are listed in the evidence as not defined.'
     return V.finish("proof", expl, "./fx check C20 --tier %s" % tier, extra={"configs": configs, "constants": info})
 
 
